@@ -542,22 +542,25 @@ def gen_ep_formulas(incdirs, out_path, cpfx="ep", fpfx="fp"):
 
 
 def generate_all(base_build_dir):
-    """regenerate every Gen/*.lean from the current tree; returns {"obligations": [...], "failures": [...]}"""
+    """regenerate every Gen/*.lean from the current tree; returns {"groups": {name: {"obligations": [...], "failures": [...]}}}"""
     inc = [os.path.join(base_build_dir, "include"), os.path.join(REPO, "include"), os.path.join(REPO, "include", "low"),
            os.path.join(REPO, "src", "tmpl")]
-    out = {"obligations": [], "failures": []}
     gen_dir = os.path.join(VERIF, "lean", "RelicVerif", "Gen")
+    groups = {}
+    ep = {"obligations": [], "failures": []}
     try:
         r = gen_ep_formulas(inc, os.path.join(gen_dir, "EpFormulas.lean"))
-        out["obligations"] += r["obligations"]
-        out["failures"] += r["failures"]
+        ep["obligations"] += r["obligations"]
+        ep["failures"] += r["failures"]
     except TranslationError as e:
-        out["failures"].append("translator: %s" % e)
+        ep["failures"].append("translator: %s" % e)
+    groups["ep"] = ep
     import translate_params
     pr = translate_params.generate(base_build_dir)
-    out["param_obligations"] = pr["obligations"]
-    out["param_failures"] = pr["failures"]
-    return out
+    groups["params"] = {"obligations": pr["obligations"], "failures": pr["failures"]}
+    import translate_ct
+    groups["ct"] = translate_ct.generate(gen_dir)
+    return {"groups": groups}
 
 
 if __name__ == "__main__":
